@@ -10,7 +10,7 @@ def main():
     checks = sys.argv[2].split(",") if len(sys.argv) > 2 else [pid]
     tier = sys.argv[3] if len(sys.argv) > 3 else "quick"
     rnd = os.environ.get("ROUND", "")           # e.g. r2: /tmp/mut/<pid>r2-out/m1 is filed as <pid>-m3
-    shift = {"": 0, "r2": 2, "r3": 4, "r4": 6}[rnd]
+    shift = {"": 0, "r2": 2, "r3": 4, "r4": 6, "r5": 8}[rnd]
     for m in sorted(os.listdir(f"/tmp/mut/{pid}{rnd}-out")):
         d = f"/tmp/mut/{pid}{rnd}-out/{m}"
         if not os.path.isfile(os.path.join(d, "patch.diff")):
